@@ -337,6 +337,8 @@ def run_check(prop, tier, seed, only_stream=None):
         groups = {}
         for c in unknown:
             groups.setdefault((c['stream'], c['cfg'], c['opname']), []).append(c)
+        if len(groups) > 5:
+            log('[%s] %d groups of unexplained cases, replay files for the first 5; all groups: %s' % (prop, len(groups), '; '.join('%s %s %s x%d' % (k[0], k[1], k[2], len(v)) for k, v in sorted(groups.items())[:60])))
         for key in sorted(groups, key=lambda k: (len(k[1]), k))[:5]:
             cs = sorted(groups[key], key=lambda c: (len(c['args']), c['args']))
             c = cs[0]
